@@ -359,10 +359,10 @@ func dmRejectionReason(errText string) string {
 // fail shrinks a failing program and reports it under its narrow key.
 func (d *dmDirect) fail(sc *dmScenario, vm bool, res []dmStepResult, f int) {
 	v := res[f].V
-	budget := 150
+	budget := 250
 	preKey := dmFailureKey(v, dmEngineName(vm), sc, f)
-	if d.perKey[preKey] >= 5 {
-		budget = 50
+	if d.perKey[preKey] >= 4 {
+		budget = 60
 	}
 	shrunk, runs := dmShrinkScenario(sc, vm, v, f, budget)
 	d.executions += runs
